@@ -360,15 +360,19 @@ class Script:
                 (muts if is_mut else used).append(h)
         if self.lang == "cpp" and force_args is None:
             direct = [pn for pn, pt in m.params if pt[0] == "str" and pt[1] == "utf8"]
-            risky = any(pt[0] in ("oslice", "ostr", "cb") or (pt[0] == "opt" and pt[1][0] in ("oslice", "ostr")) for _, pt in m.params)
-            if direct and not risky and r.random() < (0.3 if len(direct) == 1 else 0.5):
+            # owned slices / strings and callbacks next to the rejected string (seed C03-g): whatever the wrapper prepared for Rust before
+            # it validated must be released again: the callable given by value dies with the call (CBDROP before RET, nothing leaked)
+            owning = any(pt[0] in ("oslice", "ostr", "cb") or (pt[0] == "opt" and pt[1][0] in ("oslice", "ostr")) for _, pt in m.params)
+            if direct and r.random() < (0.6 if owning else 0.3 if len(direct) == 1 else 0.5):
                 bad = r.choice(direct)
                 args[bad] = {"data": r.choice([b"\xff", b"ok\xc3", b"\xed\xa0\x80", b"a\x80b", b"\xf4\x90\x80\x80", b"\xc0\xaf"]), "null": False}
                 self.counts[m.abi_name] = n          # Rust is never reached: the per-method call counter does not advance
+                exp = [("C", "CBDROP %d" % args[pn]["cb"]) for pn, pt in m.params if pt[0] == "cb" and args[pn]["destructor"]]
+                exp.append(("C", "RET %s#- UTF8ERR" % m.abi_name))
                 step = {"kind": "call", "owner": owner, "m": m, "n": n, "args": args, "ret": None, "rejected": True, "created": [],
-                        "expect": [("C", "RET %s#- UTF8ERR" % m.abi_name)]}
+                        "expect": exp}
                 self.steps.append(step)
-                self.expected.append("RET %s#- UTF8ERR" % m.abi_name)
+                self.expected += [l for _, l in exp]
                 return step
         ret = self.ret_value(m.ret, m, args) if force_ret is None else force_ret
         if m.script is None:
